@@ -46,15 +46,6 @@ def upd (st : St) (r : Except Err Bucket) : St × String :=
 
 def nat? (s : String) : Option Nat := s.toNat?
 
-/-- every byte sequence that is valid UTF-8 survives Marshal → Unmarshal; others are replaced by U+FFFD -/
-def validUtf8 : Nat → Bytes → Bool
-  | 0, bs => bs.isEmpty
-  | _, [] => true
-  | fuel + 1, b :: r =>
-    match utf8Size (b :: r) with
-    | 0 => false
-    | n => validUtf8 fuel (r.drop (n - 1))
-
 def parseKs (a : List String) : Option KeystoreJ :=
   match a with
   | [rem, ver, cip, ent, kdf, pubp, privp, cpub, cpriv, cent, pur, coin, acct, ex, inn] => do
@@ -160,8 +151,17 @@ def step (st : St) (args : List String) : St × String :=
     match parseKs rest with
     | some k =>
       -- the file format is written out in `render` itself (not table driven): it is its own spec
-      let o := "ok " ++ Hex.encodeTok (render k) ++ (if validUtf8 (k.remarks.length + 1) k.remarks then " rt=same" else " rt=lossy")
+      -- rt: reading the text back gives the struct (the Lean reader of canonical text against json.Unmarshal)
+      let o := "ok " ++ Hex.encodeTok (render k) ++ (if parseKeystore (render k) = some k then " rt=same" else " rt=lossy")
       (st, o ++ "\t" ++ o)
+    | none => bad
+  | ["parse", h] =>
+    -- the reader of canonical keystore text against getKeystoreFromJson (the generator only sends canonical documents)
+    match Hex.decode h with
+    | some bs =>
+      (st, match parseKeystore bs with
+        | some k => s!"ok {Hex.encodeTok k.remarks} {k.version} {Hex.encodeTok k.cipher} {Hex.encodeTok k.entropyEnc} {Hex.encodeTok k.kdf} {Hex.encodeTok k.pubParams} {Hex.encodeTok k.privParams} {Hex.encodeTok k.cryptoKeyPubEnc} {Hex.encodeTok k.cryptoKeyPrivEnc} {Hex.encodeTok k.cryptoKeyEntropyEnc} {k.purpose} {k.coin} {k.account} {k.externalChildNum} {k.internalChildNum}"
+        | none => "err")
     | none => bad
   | "import-probe" :: passOk :: rest =>
     -- passOk: whether the probe passphrase opens privParams (scrypt is outside the model: the generator says)
